@@ -20,7 +20,9 @@ from mc.kern_ref import quantise
 REP = [("a", 0x61), ("b", 0x62), ("f_i", None), ("acutecomb", 0x301), ("gravecomb", 0x300),
        ("cedillacomb", 0x327), ("ka-deva", 0x915), ("anusvara-deva", 0x902),
        # a second Indic script that the "deva" environment does NOT declare with a languagesystem
-       ("ka-beng", 0x995), ("anusvara-beng", 0x982)]
+       ("ka-beng", 0x995), ("anusvara-beng", 0x982),
+       # an Indic ligature and the nukta (anchors only through the seed states below)
+       ("k_ssa-deva", 0x979), ("nukta-deva", 0x93C)]
 ALLOWED = {
     "a": ["top", "bottom", "top.alt"],
     "b": ["top", "bottom"],
@@ -32,15 +34,17 @@ ALLOWED = {
     "anusvara-deva": ["_top", "_bottom"],
     "ka-beng": ["top"],
     "anusvara-beng": ["_top"],
+    "k_ssa-deva": [],
+    "nukta-deva": [],
 }
 # (zero coordinates on purpose: 0 is a valid, falsy coordinate)
 POS = [(0, 20), (10.5, 20.5), (-250.5, 0), (104.75, 494.75)]
 OPS = [(g, n) for g, _ in REP for n in ALLOWED[g]]
 CATEGORIES = {"a": "base", "b": "base", "ka-deva": "base", "f_i": "ligature", "acutecomb": "mark",
               "gravecomb": "mark", "cedillacomb": "mark", "anusvara-deva": "mark", "ka-beng": "base",
-              "anusvara-beng": "mark"}
-GDEF_FEA = ("table GDEF { GlyphClassDef [a b ka-deva ka-beng], [f_i], "
-            "[acutecomb gravecomb cedillacomb anusvara-deva anusvara-beng], ; } GDEF;\n")
+              "anusvara-beng": "mark", "k_ssa-deva": "ligature", "nukta-deva": "mark"}
+GDEF_FEA = ("table GDEF { GlyphClassDef [a b ka-deva ka-beng], [f_i k_ssa-deva], "
+            "[acutecomb gravecomb cedillacomb anusvara-deva anusvara-beng nukta-deva], ; } GDEF;\n")
 ENVS = [[], ["categories"], ["user-gdef"], ["group"], ["q5"], ["q10"], ["deva"], ["categories", "group"],
         ["categories", "deva"], ["q5", "group"], ["fea-markclass"], ["categories", "gdef-carets"]]
 # a hand-written GDEF block without GlyphClassDef: the classes still come from the categories
@@ -128,6 +132,8 @@ def evaluate(tt, spec, env, counters):
     def is_mark_glyph(g):
         if has_roles:
             return CATEGORIES[g] == "mark"
+        if "fea-markclass" in env and g == "acutecomb":
+            return True  # the user's markClass statement makes it a mark (feaLib infers GDEF class 3)
         return any(n.startswith("_") and n[1:] in live for n in anchors[g])
 
     viols, table = [], []
@@ -257,8 +263,24 @@ class C06(Property):
          ["cedillacomb", "_bottom", 0]],
     ]
 
+    # anchors outside the op alphabet: a spacing accent (base by its category) that carries both an
+    # attaching and a plain anchor; numbered anchors of the Indic above/below families on a ligature
+    EXTRA_SEEDS = [
+        [["b", "top", 0], ["b", "_top", 1], ["acutecomb", "_top", 1], ["a", "top", 1]],
+        [["k_ssa-deva", "nukta_1", 0], ["k_ssa-deva", "nukta_2", 1], ["k_ssa-deva", "top_1", 1],
+         ["k_ssa-deva", "bottom_2", 0], ["nukta-deva", "_nukta", 1], ["anusvara-deva", "_top", 0],
+         ["anusvara-deva", "_bottom", 1]],
+    ]
+
     def initial(self, b):
         out = [[{"env": e}] for e in ENVS]
+        for si, seed in enumerate(self.EXTRA_SEEDS):
+            for e in ENVS:
+                if si == 0 and "fea-markclass" in e:
+                    # a hand-written markClass makes feaLib infer the glyph classes (acutecomb alone is a
+                    # mark): whether the spacing accent is a mark is then the user's definition
+                    continue
+                out.append([{"env": e, "seed": len(seed), "grow": 1}] + seed)
         for seed in self.WIDE_SEEDS:
             for e in ENVS:
                 out.append([{"env": e, "seed": len(seed), "grow": 1}] + seed)
